@@ -614,6 +614,31 @@ def job_c12(args):
                 out["illegal"].append({"pos": pos, "ch": ch, "valid": valid, "out": buf.getvalue()[:120], "text": t2 if valid else None})
             except Exception as ex:  # noqa: BLE001
                 out["illegal"].append({"pos": pos, "ch": ch, "exc": type(ex).__name__, "text": t2})
+            if n_ins % 4 == 1:
+                # the same text as a FILE in a legacy code page: the byte is no valid UTF-8; whatever the loader does
+                # with it (it raises on the pinned tree), the program is not accepted as if the byte were not there
+                lch = rng.choice(["\xe4", "\xa7", "\xb0", "\xa3", "\xdf"])
+                data = (text[:pos]).encode("utf-8") + lch.encode("latin-1") + (text[pos:]).encode("utf-8")
+                path = os.path.join(os.getcwd(), "legacy_%d.pfdl" % os.getpid())
+                with open(path, "wb") as fh:
+                    fh.write(data)
+                buf = io.StringIO()
+                try:
+                    from pfdl_scheduler.utils.parsing_utils import parse_program
+                    with contextlib.redirect_stdout(buf):
+                        rr = parse_program(path)
+                    if rr[0]:
+                        out["illegal"].append({"pos": pos, "ch": "byte 0x%02x (file, not UTF-8)" % ord(lch), "valid": True,
+                                               "out": buf.getvalue()[:120], "text": data.decode("latin-1")})
+                    else:
+                        out["illegal"].append({"pos": pos, "ch": "byte", "valid": False, "out": buf.getvalue()[:120], "text": None})
+                except Exception:  # noqa: BLE001
+                    out["illegal"].append({"pos": pos, "ch": "byte", "valid": False, "out": "raised", "text": None})
+                finally:
+                    try:
+                        os.remove(path)
+                    except OSError:
+                        pass
         signal.alarm(0)
         return out
     except CaseTimeout:
